@@ -653,6 +653,21 @@ def fixed_scenarios():
                 L.append(('interp %s 7' if iface == 'interp' else 'call %s 7') % f)
             L += ['gen_finish', 'c2m_finish', 'finish']
             out.append((['0 ' + l for l in L], dict(ctxs=1, kinds=['fixed-' + iface])))
+    # EVERY small declaration history (tools/gen_c17_decl.py): <0..2 exports/forwards> definition <0..2 exports/forwards>
+    # for functions, data and bss, once as MIR text and once through the construction API; every sequence of up to three
+    # declarations of a C array / scalar / function around its definition
+    L = ['init']
+    fs = []
+    for how in ('scan', 'apim'):
+        x = nm()
+        for ops, f in DCL.exhaustive_decl_modules(x):
+            L.append('scan ' + hexs(DCL.to_text(ops, f[1:])) if how == 'scan' else 'apim %s %s' % (f[1:], DCL.to_api(ops)))
+            fs.append(f)
+    x = nm()
+    L += ['c2m_init', 'c2m u%s.c %s' % (x, hexs(DCL.exhaustive_c_redecl_unit()[1].replace('@N@', x))), 'c2m_finish']
+    fs.append('f' + x)
+    L += ['output', 'load', 'gen_init', 'opt 1', 'link gen'] + ['call %s 7' % f for f in fs] + ['gen_finish', 'finish']
+    out.append((['0 ' + l for l in L], dict(ctxs=1, kinds=['fixed-decl-exhaustive'])))
     # binary round trip into a second context
     x = nm()
     L = ['0 init', '0 scan ' + hexs(MIR_POOL[1].replace('@N@', x)), '0 api 901 2', '0 write', '1 init', '1 take 0',
@@ -669,6 +684,20 @@ def _unhex(h):
         return binascii.unhexlify(h)
     except Exception:
         return b''
+
+
+def module_funcs(line):
+    """callable functions ( long f (long) ) of the module a script line creates"""
+    w = line.split(' ')
+    if w[1] in ('c2m', 'c2mo') and not (w[1] == 'c2mo' and set(w[3].split(',')) & {'E', 'S'}):
+        return ['f' + w[2][1:-2]]
+    if w[1] == 'scan':
+        return [f for f in re.findall(r'^(\w+):\s+func', _unhex(w[2]).decode(errors='replace'), re.M) if f.startswith('f')]
+    if w[1] == 'api':
+        return ['apif' + w[2]]
+    if w[1] == 'apim':
+        return ['f' + w[2]]
+    return []
 
 
 def valid(lines):
